@@ -1,6 +1,6 @@
 CFG = {
     "lean_targets": ["Norad.Props.C15"],
-    "extract": "kern_consts",
+    "extract": ["kern_consts", "upconv"],
     "audit": "Norad/Audit/C15.lean",
     "rule": ("groups/kerning/glyph-set triples written as format 1, 2 and 3 UFO trees and loaded with Font::load: every triple over a "
              "6-name colliding pool (A, @MMK_L_A, @MMK_L_@MMK_L_A, public.kern1.A, @MMK_R_A, public.kern2.A) with <=3 groups and <=1 pair (quick: "
@@ -19,6 +19,7 @@ CFG = {
         "Rust str::replace(pat, \"\") is transcribed as StrMap.removeAll (left-to-right, non-overlapping, no re-scan) and compared on names with nested and re-forming prefixes",
     ],
     "assumptions": [
+        "tools/extract_upconv.py translates the statement sequences of validate_groups, make_unique_group_name, find_known_kerning_groups and upconvert_kerning of the tree under check into Kern.Gen.* (lean/Norad/Generated/Upconv.lean) on every run; source_validate_eq_model / source_upconvert_eq_model (Props/KernSource.lean) identify them with the model functions for all inputs (a statement the translator does not know makes its section fall back to tools/pinned/Upconv.lean, `extraction: pinned`; the `while` of make_unique_group_name is translated in do-while form after checking that the early return establishes its first test; fuel is the model's)",
         "tools/extract_kern_consts.py re-extracts the prefixes, the prefix-only length, the legacy markers with their sides from src/groups.rs and src/upconversion.rs on every run (regex anchors; a section whose anchor is missing uses the pinned copy and the evidence says `extraction: pinned`); the source_* theorems tie them to the model literals",
         "the glyph set norad consults is its interning table after loading the layers; the harness passes that set to the model and the glyph names of the layers to the specification",
         "kerning values are opaque 64-bit patterns in the model (never inspected by the conversion)",
